@@ -7,7 +7,7 @@
    invariants evaluated inside real solver runs at every hook event. *)
 From SV Require Import Cxx Ops LinAlg RngGen Arnoldi.
 From mathcomp Require Import all_ssreflect all_algebra.
-From SV Require Import Krylov OpsF ArnoldiPf.
+From SV Require Import Krylov OpsF ArnoldiPf ArnoldiLoop.
 Set Implicit Arguments. Unset Strict Implicit. Unset Printing Implicit Defensive.
 Import GRing.Theory.
 Local Open Scope ring_scope.
@@ -101,3 +101,31 @@ Theorem C07_model_lanczos_recurrence : forall (F : rcfType) (n : nat) (w u v : s
   beta * nth 0 u r + alpha * nth 0 v r + nth 0 f r = nth 0 w r.
 Proof. move=> F n w u v beta alpha r; exact: lanczos_recurrence. Qed.
 Print Assumptions C07_model_lanczos_recurrence.
+
+(* ---- the WHOLE factorization of the model, every number of steps.  Notation (proofs/ArnoldiLoop.v), for a state Fc with basis V, matrix H
+   (column i, row j: Hc Fc i j), residual f and k columns built:
+     InvW k Fc : shapes are m columns of length n / m x m, and  A v_i = sum_(j<k) H(j,i) v_j  for every i + 1 < k, and H(j,i) = 0 for i < k, i + 1 < j < m
+     R2 k Fc   : A v_(k-1) = sum_(j<k) H(j,k-1) v_j + f        (so InvW k /\ R2 k is  A V_k = V_k H_k + f e_k'  with H_k upper Hessenberg)
+     dropped Fc: f = 0 and beta = 0  (the re-orthogonalisation found the residual negligible and discarded it)
+     nb_run l st: no step of the run l starts from a breakdown (every entry norm beta >= near_0).
+   Arnoldi::init establishes the relation for one column: *)
+Theorem C07_model_init_relation : forall (F : rcfType) (near0 eps l717 : F) (Arows : seq (seq F)) (n m : nat) (v0 : seq F) (Fc : fac (OpsF F)) (cnt : nat),
+  0 < near0 -> size Arows = n -> (0 < m)%N -> Arnoldi.init (OpsF F) near0 eps Arows n m v0 = @Done _ (Fc, cnt) ->
+  InvW Arows n m 1 Fc /\ (R2 Arows n 1 Fc \/ dropped n Fc).
+Proof. move=> F near0 eps l717 Arows n m v0 Fc cnt np sA m0; exact: (@init_relation F near0 eps Arows n m np sA v0 Fc cnt m0). Qed.
+Print Assumptions C07_model_init_relation.
+
+(* ... and Arnoldi::factorize_from(from_k, to_m) hands it on to EVERY column, for every from_k < to_m <= m: started from a state that satisfies the
+   relation for from_k columns, a run in which no step starts from a breakdown ends with the relation for to_m columns - each step closes the
+   relation of the previous column with v_k = f / beta, H(k, k-1) = beta and opens the one of column k by Gram-Schmidt and up to five
+   re-orthogonalisation passes; H stays upper Hessenberg; only the residual of the LAST column may have been dropped *)
+Theorem C07_model_factorize_relation : forall (F : rcfType) (near0 eps l717 : F) (Arows : seq (seq F)) (n m : nat) (from_k to_m : nat) (Fc : fac (OpsF F)) (cnt : nat),
+  0 < near0 -> size Arows = n -> (0 < from_k)%N -> (from_k < to_m <= m)%N -> (from_k <= fk (OpsF F) Fc)%N ->
+  InvW Arows n m from_k Fc -> R2 Arows n from_k Fc ->
+  let bt := eps * Num.sqrt (of_Z (OpsF F) (BinInt.Z.of_nat n)) in
+  let Fz := {| fV := fV (OpsF F) Fc; fH := zero_from (OpsF F) m from_k (fH (OpsF F) Fc); ff := ff (OpsF F) Fc; fbeta := fbeta (OpsF F) Fc; fk := fk (OpsF F) Fc |} in
+  nb_run near0 eps l717 Arows n m bt (List.seq from_k (to_m - from_k)) (Fz, cnt) ->
+  exists F' cnt', [/\ arnoldi_factorize_from_k (OpsF F) near0 eps l717 Arows n m from_k to_m (Fc, cnt) = @Done _ (F', cnt'),
+                     fk (OpsF F) F' = to_m, InvW Arows n m to_m F' & R2 Arows n to_m F' \/ dropped n F'].
+Proof. move=> F near0 eps l717 Arows n m from_k to_m Fc cnt np sA k0 kt kf iw r2 bt; exact: (@factorize_relation F near0 eps l717 Arows n m bt np sA from_k to_m Fc cnt (erefl _)). Qed.
+Print Assumptions C07_model_factorize_relation.
